@@ -167,6 +167,9 @@ def run_job(spec, ctx):
             cands = [{'inputs': inp, 'model': key, 'shape': list(shape), 'ranks': list(ranks), 'variant': variant}
                      for inp in H.witness_models(eng, neg, names, H.nice_pins(shape))]
             H.mark_last(cands)
+            if cands and variant == 'lsuf':
+                # the uninterpreted gamma may have to be large or zero for the difference to show
+                cands[-1]['__alts__'] = [{'gamma_const': g} for g in (0.0, 1.0, 12.0, 60.0)]
             ctx.ob('code == reference', 'sat' if cands else 'unknown', cands, sample=sample)
         else:
             ctx.ob('code == reference: path & domain & (mu or sigma differs)', r, sample=sample)
@@ -182,6 +185,9 @@ def replay(cand):
     G = None
     if variant == 'lsuf':
         G = concrete_gamma
+        if cand.get('gamma_const') is not None:
+            gc = float(cand['gamma_const'])
+            G = lambda c, k, mu, ss, team, rank: gc     # noqa: E731
         cfg['gamma'] = G
     Model = H.model_class(key)
     m, teams = H.build_game(Model, shape, H.float_maker(inp), **cfg)
